@@ -153,3 +153,19 @@ Theorem C01_repo_order_test :
   = lits ["incr_dispatch"; "_is_valid_version"; "version.to_pep440"; "click.echo"; "click.echo"].
 Proof. exact c01_order_test. Qed.
 Print Assumptions C01_repo_order_test.
+
+(* ---- Proofs.TaggedFacts ---- *)
+From Coq Require Import List Bool NArith ZArith Arith.
+From BV Require Import Lib.PyStr Lib.Decimal Lib.Regex Model.Pep440 Proofs.CalverE2E Proofs.TaggedFacts.
+Import ListNotations.
+Theorem C01_tag_rank_lt : forall (v v' : bool) (ds : list (list N)) (sep sep' : list N) (t1 t2 : btag) (n m : list N), ds <> [] -> Forall dstr ds -> sep_ok sep -> sep_ok sep' -> all_digits n = true -> all_digits m = true -> (rank t1 < rank t2)%N -> ver_lt (tagged v ds sep t1 n) (tagged v' ds sep' t2 m) = true /\ ver_lt (tagged v' ds sep' t2 m) (tagged v ds sep t1 n) = false.
+Proof. exact tag_rank_lt. Qed.
+Print Assumptions C01_tag_rank_lt.
+
+Theorem C01_tag_vs_final : forall (v v' : bool) (ds : list (list N)) (sep : list N) (t : btag) (n : list N), ds <> [] -> Forall dstr ds -> sep_ok sep -> all_digits n = true -> ver_lt (tagged v ds sep t n) (untagged v' ds) = (rank t <? rank_final)%N /\ ver_lt (untagged v' ds) (tagged v ds sep t n) = (rank_final <? rank t)%N.
+Proof. exact tag_vs_final. Qed.
+Print Assumptions C01_tag_vs_final.
+
+Theorem C01_tag_downgrade_general : forall (v v' : bool) (ds : list (list N)) (sep sep' : list N) (t1 t2 : btag) (n m : list N), ds <> [] -> Forall dstr ds -> sep_ok sep -> sep_ok sep' -> all_digits n = true -> all_digits m = true -> (rank t2 < rank t1)%N -> ver_lt (tagged v ds sep t1 n) (tagged v' ds sep' t2 m) = false.
+Proof. exact tag_downgrade_general. Qed.
+Print Assumptions C01_tag_downgrade_general.
